@@ -239,7 +239,7 @@ def run_prop(prop, tier, seed, replay):
     gate = {'ok': True, 'obligations': 0, 'discharged': 0, 'failed': None, 'axioms': [], 'checker_cmd': '', 'gen': {}}
     if prop == 'C04':
         # soundness of the checker that judges the crash images
-        gate = common.proof_gate('C04', ['Spec/Entries.v', 'Spec/Image.v', 'Model/Crash.v', 'Proofs/SpecProps.v', 'Proofs/CrashProps.v', 'Props/C04.v'])
+        gate = common.proof_gate('C04', ['Spec/Entries.v', 'Spec/Image.v', 'Spec/Cells.v', 'Model/Crash.v', 'Proofs/SpecProps.v', 'Proofs/CrashProps.v', 'Props/C04.v'])
     if prop == 'C05':
         gate = common.proof_gate('C05', ['Model/Crash.v', 'Proofs/CrashProps.v', 'Props/C05.v'])
     rc, out = qv.harness_build()
